@@ -1,4 +1,134 @@
-import Nstd.Buffer.Model
+import Nstd.Buffer.LemmasStep
+/-
+  Property C08: "After any sequence of append, prepend, assign, resize, reserve, removeFront,
+  removeBack, clear, free, swap, copy and attach, a Buffer exposes exactly the bytes a reference
+  byte queue holds (bytes newly exposed by a growing resize are unspecified), and whenever it
+  owns its storage one readable zero byte follows the last data byte.  It never reads or writes
+  outside its own allocation or the attached range."
+
+  The theorems are about the model `Nstd.Buffer.run` (Model.lean) started in `init nvars regs`
+  (`nvars` default-constructed Buffer variables, `regs` = attachable caller memory) and hold
+  for EVERY operation list, every number of variables and every region content; no bound on
+  sizes, offsets or the length of the history.  A fault (`none`) of the model is an access
+  outside the object's own allocation / the attached range, a store into attached memory, or
+  a read of a freed block (Model.lean).
+-/
 namespace Nstd.Buffer
-theorem placeholder : (init 2 []).bufs.length = 2 := by decide
+
+/-- **No out-of-range access.**  Every history of well-formed operations (variable indices
+    exist, every attached range lies inside its region) runs without a fault, whatever the
+    sizes, head-room, capacities and ownership states it goes through – including histories
+    that mix `attach` with owning operations, that hand the same region to several buffers
+    and that pass a buffer to itself. -/
+theorem no_fault (nvars : Nat) (regs : List (List Byte)) (ops : List Op)
+    (hwf : ∀ op ∈ ops, WFOp nvars regs op) :
+    ∃ st, run (init nvars regs) ops = some st := by
+  have hw : ∀ op ∈ ops, WFOp (init nvars regs).bufs.length (init nvars regs).regs op := by
+    simpa [init] using hwf
+  obtain ⟨st, h, _⟩ := run_ok ops (qs := Spec.init nvars) (init_inv nvars regs) (init_rel nvars regs) hw
+  exact ⟨st, h⟩
+
+/-- **Terminator.**  In every reachable state, whenever a Buffer owns storage, the byte after
+    the data is readable (inside the allocation) and is `0`. -/
+theorem terminator_zero (nvars : Nat) (regs : List (List Byte)) (ops : List Op) (st : State)
+    (hrun : run (init nvars regs) ops = some st) (v : Nat) (b : Buf)
+    (hb : st.getBuf v = some b) (hown : b.owning = true) :
+    Nstd.Buffer.terminator st v = some (some (some 0)) := by
+  have hp := run_post ops (qs := Spec.init nvars) (init_inv nvars regs) (init_rel nvars regs) hrun
+  have hbi := hp.1 v b hb
+  obtain ⟨store, s, e, cap⟩ := b
+  cases store with
+  | own m =>
+    simp only [BInv] at hbi
+    obtain ⟨hl, _, he, ht⟩ := hbi
+    have hlt : e < m.length := by omega
+    have hget : m[e] = some 0 := by
+      rw [List.getElem?_eq_getElem hlt] at ht
+      exact Option.some.inj ht
+    have hrd : rdList m e 1 = some [some 0] := by
+      have h1 : e + 1 ≤ m.length := by omega
+      simp only [rdList, h1, if_true, Option.some.injEq]
+      rw [List.drop_eq_getElem_cons hlt, hget]
+      simp
+    simp only [Nstd.Buffer.terminator, hb, Option.bind_eq_bind, Option.bind_some, hrd]
+    rfl
+  | att m => simp [Buf.owning] at hown
+  | dflt c => simp [Buf.owning] at hown
+
+/-- **Byte-queue refinement.**  After any history the exposed bytes of every variable can be
+    read without a fault and match the reference byte queue of `Spec.lean` run on the same
+    history (`Match`: equal length, every specified byte equal; bytes newly exposed by a growing
+    `resize` are unspecified in the specification and match anything). -/
+theorem refines (nvars : Nat) (regs : List (List Byte)) (ops : List Op) (st : State)
+    (hrun : run (init nvars regs) ops = some st) (v : Nat) (hv : v < nvars) :
+    ∃ c, contents st v = some c ∧ Match (Spec.get (Spec.run regs (Spec.init nvars) ops) v) c := by
+  have hp := run_post ops (qs := Spec.init nvars) (init_inv nvars regs) (init_rel nvars regs) hrun
+  have hlen : st.bufs.length = nvars := by simpa [init] using hp.2.2.2
+  have hb : st.bufs[v]? = some st.bufs[v] := List.getElem?_eq_getElem (hlen ▸ hv)
+  refine ⟨st.bufs[v].data, ?_, hp.2.1.2 v _ hb⟩
+  simp [contents, State.getBuf, hb, contents_ok (hp.1 v _ hb)]
+
+/-- **Attached memory is never modified.**  The attachable regions are the same after any
+    history.  (In the model a store of at least one byte through a pointer into attached memory
+    is a fault – `att_store_faults` – so together with `no_fault` no such store is ever attempted.) -/
+theorem attached_untouched (nvars : Nat) (regs : List (List Byte)) (ops : List Op) (st : State)
+    (hrun : run (init nvars regs) ops = some st) : st.regs = regs :=
+  (run_post ops (qs := Spec.init nvars) (init_inv nvars regs) (init_rel nvars regs) hrun).2.2.1
+
+/-- the model treats every store of ≥ 1 byte into attached memory (or the `_capacity` cell) as a fault -/
+theorem att_store_faults (m : List Byte) (off : Nat) (d : List Byte) (h : d ≠ []) :
+    (Store.att m).write off d = none ∧ ∀ c, (Store.dflt c).write off d = none := by
+  have : d.length ≠ 0 := fun h0 => h (List.eq_nil_of_length_eq_zero h0)
+  simp [Store.write, this]
+
+/-- all four statements at once for well-formed histories -/
+theorem buffer_correct (nvars : Nat) (regs : List (List Byte)) (ops : List Op)
+    (hwf : ∀ op ∈ ops, WFOp nvars regs op) :
+    ∃ st, run (init nvars regs) ops = some st ∧ st.regs = regs ∧
+      ∀ v, v < nvars → ∃ b c, st.getBuf v = some b ∧ contents st v = some c ∧
+        Match (Spec.get (Spec.run regs (Spec.init nvars) ops) v) c ∧
+        (b.owning = true → Nstd.Buffer.terminator st v = some (some (some 0))) := by
+  obtain ⟨st, hrun⟩ := no_fault nvars regs ops hwf
+  refine ⟨st, hrun, attached_untouched nvars regs ops st hrun, fun v hv => ?_⟩
+  obtain ⟨c, hc, hm⟩ := refines nvars regs ops st hrun v hv
+  have hp := run_post ops (qs := Spec.init nvars) (init_inv nvars regs) (init_rel nvars regs) hrun
+  have hlen : st.bufs.length = nvars := by simpa [init] using hp.2.2.2
+  have hb : st.getBuf v = some st.bufs[v] := List.getElem?_eq_getElem (hlen ▸ hv)
+  exact ⟨_, c, hb, hc, hm, fun ho => terminator_zero nvars regs ops st hrun v _ hb ho⟩
+
+/-! ### non-vacuity: concrete histories meeting the hypotheses, with non-trivial outcomes -/
+
+/-- two variables, two regions as in the harness -/
+def exRegs : List (List Byte) := [[some 0x10, some 0x11, some 0x12, some 0x13], [some 0x20, some 0x21]]
+
+/-- a history that goes through attach, the reallocating / shifting / head-room branches of prepend,
+    compaction in resize, self-append, swap, and ends with two non-empty buffers -/
+def exOps : List Op :=
+  [.attach 0 0 1 3, .appendData 0 [1, 2], .removeFront 0 2, .prependData 0 [7], .prependData 0 [8, 9],
+   .resize 0 7, .appendBuf 0 0, .ctorCap 1 4, .appendBuf 1 0, .removeBack 1 10, .swap 0 1,
+   .prependBuf 1 1, .assignBuf 0 0, .reserve 0 20, .attach 1 1 0 2, .removeBack 1 1]
+
+example : ∀ op ∈ exOps, WFOp 2 exRegs op := by
+  simp [exOps, WFOp, exRegs]
+
+/-- the hypotheses of `terminator_zero`/`refines`/`attached_untouched` are met by a run ending in an
+    owning buffer with four bytes and an attached buffer with one byte -/
+example : ∃ st b, run (init 2 exRegs) exOps = some st ∧ st.getBuf 0 = some b ∧ b.owning = true ∧
+    contents st 0 = some [some 8, some 9, some 7, some 0x13] ∧
+    contents st 1 = some [some 0x20] := by
+  refine ⟨_, _, rfl, rfl, rfl, rfl, rfl⟩
+
+/-- `Match` is not trivially true: a specified byte must be equal, lengths must agree -/
+example : ¬ Match [some 1] [some 2] := by
+  intro h; cases h with | cons h _ => rcases h with h | h <;> simp at h
+example : ¬ Match [none] [] := by intro h; cases h
+example : Match [none, some 3] [some 9, some 3] :=
+  .cons (.inl rfl) (.cons (.inr rfl) .nil)
+
+/-- the model does fault on ill-formed use: an attached range outside its region -/
+example : run (init 2 exRegs) [.attach 0 1 1 2] = none := by decide
+
+/-- and the checked memory does catch out-of-range accesses (what `no_fault` excludes) -/
+example : wrList [none, none] 1 [some 0, some 0] = none ∧ rdList [some 1] 1 1 = none := by decide
+
 end Nstd.Buffer
